@@ -1,5 +1,5 @@
 \* C05: lock-step producer, no faults: the stream makes progress chunk by chunk
-CONSTANTS M = 4 N = 2 MaxAttempts = 3 MaxFail = 0 StaleReader = FALSE LockStep = TRUE BufferAll = FALSE
+CONSTANTS M = 4 N = 2 MaxAttempts = 3 MaxFail = 0 StaleReader = FALSE LockStep = TRUE BufferAll = FALSE Timers = {}
 SPECIFICATION Spec
 CHECK_DEADLOCK FALSE
 INVARIANTS AckedIntegrity
